@@ -33,6 +33,15 @@ of `combined_view`.  `_get_max_port_len` is read statically first (initial list,
 running maximum as `if` / conditional expression / `max`); only if its statements have another shape
 (e.g. comprehensions instead of loops) it is called in isolation with a stub machine model on probe
 kernels and must be  width[i] = max(m, max len('%.<d>f' % pressure[i]))  on all of them.
+The `Warnings` entry of `full_analysis_dict` is read the same way: the statements that can influence it
+(backward slice, astutil_G5.backward_slice; private helpers substituted first) are compiled alone as a function
+of (kernel, arch_warning, length_warning, lcd_warning) and run on all combinations with probe kernels; the list must
+be  [arch][length][lcd][unknown-instruction]  for four fixed names, the last one iff the unknown-throughput flag
+occurs in some instruction's flags.  The two warning switches of `inspect` are read STATICALLY as decision trees
+(astutil_G5.ite_value: the value the local has where full_analysis is called, as a tree over the tests of the
+enclosing ifs) and compared with  not args.arch  /  not args.lines and len(kernel) == len(parsed_code) and
+len(kernel) > N  on every truth assignment of the atoms; N is recovered from `>`, `>=`, `<`, `<=` in either
+operand order.
 Nothing is imported from the analysed tree; a helper that is no longer pure (uses
 `self._machine_model`, a non-white-listed builtin, ...) fails loudly.
 
@@ -122,9 +131,20 @@ def instr_flags():
 class Fn:
     """one function of the source with its scope and its templates"""
 
-    def __init__(self, base, cls, name):
+    def __init__(self, base, cls, name, inline_private=False):
         self.name = (cls.name + "." if cls is not None else "") + name
         self.node = A.find_method(cls, name) if cls is not None else find_func(base.module, name)
+        if inline_private:
+            # calls of private helpers (underscore names, static methods) are replaced by the helper's
+            # statements: an "extract function" refactoring does not show (astutil_G5.inline_helpers)
+            if cls is not None:
+                res = G5.class_resolver([cls], self.node, only=G5.is_private_helper)
+            else:
+                res = G5.module_resolver(base.module, self.node,
+                                         only=lambda n, f: n.startswith("_") and not n.startswith("__"))
+            new, used = G5.inline_helpers(self.node, res, depth=2)
+            if used:
+                self.node = new
         self.sc = base.at(cls=cls, fn=self.node)
         self.T = A.Templates(self.sc)
         self._roots = None
@@ -843,7 +863,7 @@ def default_archs(tm, C):
 
 
 def inspect_flags(tm, C):
-    f = Fn(A.Scope(tm), None, "inspect")
+    f = Fn(A.Scope(tm), None, "inspect", inline_private=True)
     sc = f.sc
 
     def is_args(node, attr):
@@ -951,7 +971,8 @@ def inspect_flags(tm, C):
 
 
 # --------------------------------------------------------------------------- the generator
-@generator("ReportConsts", [FRONT, MAIN, ISA])
+@generator("ReportConsts", [FRONT, MAIN, ISA, "../verif-self:tools/gen/reportconsts.py",
+                            "../verif-self:tools/gen/astutil_G3.py", "../verif-self:tools/gen/astutil_G5.py"])
 def gen_reportconsts():
     tf = parse(FRONT)
     flags = instr_flags()
@@ -974,7 +995,7 @@ def gen_reportconsts():
     symbol_map(base, cls, flags, C, flag_fn)
     lcd_list(Fn(base, cls, "loopcarried_dependencies"), C)
     header_report(Fn(base, cls, "_header_report"), C)
-    dict_warnings(Fn(base, cls, "full_analysis_dict"), C, flags)
+    dict_warnings(Fn(base, cls, "full_analysis_dict", inline_private=True), C, flags)
 
     tm = parse(MAIN)
     default_archs(tm, C)
